@@ -25,8 +25,8 @@ func init() {
 }
 
 func genC09(ctx *Ctx) {
-	alpha := []rune{'a', 'b', ' ', ',', ';', '|', '"', '\'', '\r', '\n', 'é', '日', 0, 0xFFFE, '\t'}
-	sepSets := [][]rune{{','}, {';', ','}, {'|'}, {'日'}}
+	alpha := []rune{'a', 'b', ' ', ',', ';', '|', '"', '\'', '\r', '\n', 'é', '日', 0, 0xFFFE, '\t', 'ÿ', 0x100, '；', '語'}
+	sepSets := [][]rune{{','}, {';', ','}, {'|'}, {'日'}, {'ÿ'}, {'；', ','}}
 	quoteSets := [][]rune{{'"'}, {'"', '\''}, {'\''}, {'é'}}
 	eols := []string{"\n", "\r", "\r\n", "\n\r"}
 	st := csv.NewCsvQuoteState()
